@@ -65,6 +65,14 @@ func (x *Exec) ceval(e *CExpr, env *CEnv) *Val {
 		if e.Op == "!" {
 			return BoolV(Not(v.S))
 		}
+		if e.Op == "*" {
+			if v.K == KInt && v.T != nil {
+				if pt, ok := v.T.Underlying().(*types.Pointer); ok {
+					return x.readThrough(env.st, pt.Elem(), v.S)
+				}
+			}
+			cfail("cannot dereference %s", v)
+		}
 		return IntV("(- "+v.S+")", nil)
 	case CBinary:
 		return x.cbinary(e, env)
